@@ -123,6 +123,18 @@ CHECKS = {
         'equal and node-disjoint, pg.iter yields space_size pairwise different values, materialize with the dict view agrees. Exploration.',
         'Candidates distinguishable by construction; custom/evolvable placeholders not generated (user code).',
         'DESIGN.md section 3 C13'),
+    'C14': (
+        'grammar-based PBT over operator expressions (Hypothesis) with closure / membership / alignment / non-interference / determinism oracles + exhaustive selector-count matrix',
+        'Generated DNASpec shapes (all manyof modes, conditionals, floats), populations of 1-8 valid DNAs with single/multi-objective '
+        'fitness and operator expressions from a typed grammar over both mutators, all nine recombinators, all seven selectors and the '
+        'composition operators (>>, |, &, +, -, ^, *, **, [], ~, -, if_true/if_false, for_each, flatten, with_prob, Choice, '
+        'until_change, Conditional); half of the cases are a single operator for dense per-class coverage. Oracles: every output DNA '
+        'validates, is a member of the brute-force reference set when finite, is bound and aligned (views equal a rebuild from flat '
+        'numbers); selector-only expressions return input members by identity in the documented number; parents and the population '
+        'list are unchanged; two fresh instances of the seeded expression give equal outputs; operators must not raise on valid '
+        'parents. Selector counts are enumerated exhaustively (selector x n x population size x weights x flags). Exploration.',
+        'All stochastic leaves seeded; recombinators get two parents; Top/Bottom use an explicit key after DNA-producing ops.',
+        'DESIGN.md section 3 C14'),
 }
 
 NOT_BUILT = 'check not built yet in this round (planned; see DESIGN.md section 3)'
